@@ -69,6 +69,9 @@ def make_table(rng, kind):
         # a table sized generously: the ascending keys end before the area does (the value columns may go on)
         m = rng.randrange(3, 7)
         keys = sorted(rng.sample(range(-5, 40), m)) + [None] * (n - m)
+    elif kind == 'logical_keys':
+        # logicals among the keys: TRUE is not the number 1 and FALSE not 0 (and the other way round)
+        keys = rng.sample([True, False, 1, 0, 10, 20, 5, 30, 2, 1.0, 7, 0.0], n)
     elif kind == 'mixed_int_float':
         keys = sorted(rng.sample(range(0, 30), n))
         keys = [float(k) if i % 2 else k for i, k in enumerate(keys)]
@@ -85,6 +88,8 @@ def make_table(rng, kind):
 def lookups_for(rng, kind, keys):
     real = [k for k in keys if k is not None]
     out = list(dict.fromkeys(real))
+    if kind == 'logical_keys':
+        return [1, 0, True, False, 10, 1.0, 0.0, 2, 99]
     if kind == 'digit_text':
         return out + ['0007', '3', '1', '99', '8', '70', '000', '26', 7, 10]
     if kind.startswith('text'):
@@ -106,7 +111,7 @@ def lookups_for(rng, kind, keys):
     return out
 
 
-KINDS = ['asc_int', 'asc_float', 'asc_dup', 'unsorted', 'unsorted_dup', 'text', 'text_unsorted_dup', 'with_blanks', 'mixed_int_float', 'digit_text', 'asc_tail_blank']
+KINDS = ['asc_int', 'asc_float', 'asc_dup', 'unsorted', 'unsorted_dup', 'text', 'text_unsorted_dup', 'with_blanks', 'mixed_int_float', 'digit_text', 'asc_tail_blank', 'logical_keys']
 
 
 def classify(case, out, outs):
